@@ -56,6 +56,7 @@ CRATES = {
 JOBS = [
     {"name": "e2_arith_sites_all_crates", "prop": "C05", "tier": "quick", "crates": list(CRATES)},
     {"name": "e2_bytes_splice_functional", "prop": "C10", "tier": "quick", "crates": ["jaq-json"], "kind": "heap"},
+    {"name": "e2_bytes_splice_functional_6", "prop": "C10", "tier": "thorough", "crates": ["jaq-json"], "kind": "heap", "bound": 6},
     {"name": "e2_arith_sites_time", "prop": "C20", "tier": "quick", "crates": ["jaq-std"],
      "only_fn": r"(epoch_to_timestamp|float_to_micros|timestamp_to_epoch|array_to_datetime|datetime_to_array|to_iso8601|gmtime|mktime|strftime|strptime)"},
 ]
@@ -69,7 +70,7 @@ def is_signed(t):
 
 
 def jobs_for(prop, tier):
-    return [j for j in JOBS if j["prop"] == prop and (tier == "thorough" or j["tier"] == "quick")]
+    return [j for j in JOBS if j["prop"] == prop and (j["tier"] == "quick" or (tier == "thorough" and j["tier"] == "thorough"))]
 
 
 # ------------------------------------------------------------------------------------------
